@@ -344,8 +344,14 @@ pub fn run_check(chk: &dyn Check, tier: Tier, base_seed: u64) -> i32 {
             break;
         }
         done_upto = round_end;
-        if !merged.lock().unwrap().violations.is_empty() {
-            // finish the round (deterministic), then stop searching
+        if merged
+            .lock()
+            .unwrap()
+            .violations
+            .iter()
+            .any(|v| !open.iter().any(|k| k.key == v.2.sig))
+        {
+            // a violation that is not a listed finding: finish the round (deterministic), stop
             stop.store(true, Ordering::Relaxed);
         }
     }
